@@ -80,6 +80,12 @@ def faults_for(doc):
                           lambda d, i=i, m=m: at(i)(d).__setitem__('name', m)))
                 first = False
         F.append(('state %s without name' % n, ('name', i), lambda d, i=i: at(i)(d).pop('name')))
+        referenced = any(td.get('target') == n for sd2, _, _ in states for td in sd2.get('transitions', [])) or \
+            any(sd2.get('initial') == n or sd2.get('memory') == n for sd2, _, _ in states)
+        if referenced:
+            # names are taken verbatim: "n " is not n, so every reference to n now dangles
+            F.append(('state %s declared as %r while it is referred to as %r' % (n, n + ' ', n), ('name1', i),
+                      lambda d, i=i, n=n: at(i)(d).__setitem__('name', n + ' ')))
         F.append(('unknown key on state %s' % n, ('key', i), lambda d, i=i: at(i)(d).__setitem__('colour', 'red')))
         if typ is None:
             F.append(('unknown type on state %s' % n, ('type', i), lambda d, i=i: at(i)(d).__setitem__('type', 'bogus')))
@@ -214,6 +220,21 @@ def work(task):
         return res
     for pb in check_valid(sc):
         viol([], 'unsound', 'imported statechart: %s' % pb)
+    # valid too: one state whose name carries surrounding whitespace, used consistently in every reference
+    for sd0, _, _ in walk_states(doc)[:4]:
+        old = sd0['name']
+        d = json.loads(json.dumps(doc).replace(json.dumps(old), json.dumps(' ' + old + ' ')))
+        out2, sc2 = try_import(d)
+        res['evaluations'] += 1
+        res['outcomes']['valid, padded name: ' + out2] += 1
+        if out2 != 'accepted':
+            viol([], 'valid-rejected', 'the valid document in which %r is consistently named %r is rejected: %s'
+                 % (old, ' ' + old + ' ', out2))
+        else:
+            if (' ' + old + ' ') not in sc2.states:
+                viol([], 'unsound', 'state declared as %r is imported as one of %s' % (' ' + old + ' ', sc2.states))
+            for pb in check_valid(sc2):
+                viol([], 'unsound', 'imported statechart (padded name %r): %s' % (old, pb))
     F = faults_for(doc)
     res['nfaults'] = len(F)
     for r in range(1, maxf + 1):
